@@ -27,6 +27,38 @@ const unit = time.Millisecond
 
 type parentKey struct{}
 
+// ownCtx is a task's own context with an error of its own (context.WithCancel would report context.Canceled, the same error as a
+// cancelled pool context: a result carrying the WRONG context's error could not be told apart)
+type ownCtx struct {
+	done chan struct{}
+	mu   sync.Mutex
+	err  error
+	id   int
+}
+
+type ownCtxErr struct{ id int }
+
+func (e *ownCtxErr) Error() string { return fmt.Sprintf("the own context of task %d is done", e.id) }
+
+func newOwnCtx(id int) *ownCtx { return &ownCtx{done: make(chan struct{}), id: id} }
+
+func (c *ownCtx) Deadline() (time.Time, bool)       { return time.Time{}, false }
+func (c *ownCtx) Done() <-chan struct{}             { return c.done }
+func (c *ownCtx) Value(key interface{}) interface{} { return nil }
+func (c *ownCtx) Err() error {
+	c.mu.Lock()
+	defer c.mu.Unlock()
+	return c.err
+}
+func (c *ownCtx) cancel() {
+	c.mu.Lock()
+	if c.err == nil {
+		c.err = &ownCtxErr{c.id}
+		close(c.done)
+	}
+	c.mu.Unlock()
+}
+
 // execError is what some executors return as their own error (together with a value): it must arrive unchanged
 type execError struct{ id int }
 
@@ -38,6 +70,8 @@ type taskRec struct {
 	ctxKind      string // pool own never
 	ctx          context.Context
 	cancel       context.CancelFunc
+	resStep      int     // first observation at which the task had a result (-1: none during the scenario; the epilogue's Stop may still deliver one)
+	own          *ownCtx // non-nil: the own context is of the harness' type with a distinguishable error
 	gate         chan struct{}
 	task         *workerpool.Task
 	execs        int32
@@ -137,6 +171,9 @@ func (r *runState) observe(step int) {
 			running++
 		}
 		nres := t.nres()
+		if nres > 0 && t.resStep < 0 {
+			t.resStep = step
+		}
 		res := ""
 		if nres > 0 {
 			res = "?"
@@ -145,6 +182,9 @@ func (r *runState) observe(step int) {
 		// ---- monitors on every quiescent observation
 		if ex > 1 {
 			r.fail("C04 task %d was executed %d times", t.id, ex)
+		}
+		if t.returned && t.kind == "try" && t.tryRes && nres > 0 && ex == 0 && !r.stopCalled {
+			r.fail("C17 TryDo returned true for task %d although it was not handed over: it was refused with a context error (never executed, pool not stopped)", t.id)
 		}
 		if t.returned && t.kind == "try" && !t.tryRes && nres == 0 && ex > 0 {
 			r.fail("C04 task %d was refused by TryDo (false, no error result) but was executed", t.id)
@@ -195,10 +235,19 @@ func (r *runState) observe(step int) {
 
 func (r *runState) submit(kind, ctxKind string) {
 	id := len(r.tasks)
-	tr := &taskRec{id: id, kind: kind, ctxKind: ctxKind, gate: make(chan struct{}), returnedStep: -1, cancelStep: -1, submitAt: r.step}
+	tr := &taskRec{id: id, kind: kind, ctxKind: ctxKind, gate: make(chan struct{}), returnedStep: -1, cancelStep: -1, resStep: -1, submitAt: r.step}
 	switch ctxKind {
+	case "ownc": // an own context that is already done when the task is submitted
+		oc := newOwnCtx(id)
+		oc.cancel()
+		tr.ctx, tr.cancel, tr.own, tr.cancelStep = oc, oc.cancel, oc, r.step
 	case "own":
-		tr.ctx, tr.cancel = context.WithCancel(context.Background())
+		if id%2 == 0 {
+			oc := newOwnCtx(id)
+			tr.ctx, tr.cancel, tr.own = oc, oc.cancel, oc
+		} else {
+			tr.ctx, tr.cancel = context.WithCancel(context.Background())
+		}
 	case "never":
 		tr.ctx = context.Background()
 	}
@@ -407,6 +456,16 @@ func (r *runState) runScenario() {
 		case res := <-t.task.Result():
 			if res.Err != nil && res.Err != t.execErr {
 				kind = "err"
+				// the result of a refused task carries the error of the context that was done: its own or the pool's
+				if t.own != nil && t.resStep >= 0 { // (a result delivered only by the epilogue's Stop is not judged)
+					poolDone := r.poolDoneStep >= 0 && r.poolDoneStep <= t.resStep
+					ownDone := t.cancelStep >= 0 && t.cancelStep <= t.resStep
+					if _, isOwn := res.Err.(*ownCtxErr); ownDone && !poolDone && !isOwn {
+						r.fail("C04 task %d was refused because its own context was done (the pool's was not) but its result carries %q instead of that context's error", t.id, res.Err.Error())
+					} else if isOwn && !ownDone {
+						r.fail("C04 task %d received its own context's error although that context was not done when it was refused", t.id)
+					}
+				}
 				if atomic.LoadInt32(&t.execs) != 0 {
 					r.fail("C04 task %d received a context-error result but was executed", t.id)
 				}
@@ -496,7 +555,7 @@ func genScenario(rng *rand.Rand) scenario {
 		switch r := rng.Intn(100); {
 		case r < 38:
 			kind := []string{"do", "do", "try"}[rng.Intn(3)]
-			ck := []string{"pool", "pool", "own", "never"}[rng.Intn(4)]
+			ck := []string{"pool", "pool", "own", "never", "pool", "own", "never", "ownc"}[rng.Intn(8)]
 			sc.actions = append(sc.actions, kind+" "+ck)
 			running[ntask] = true
 			if ck == "own" {
